@@ -135,7 +135,7 @@ struct Scenario {
 
 pub fn run(ctx: &Ctx) -> Evidence {
     let mut ev = ctx.evidence("C12", "fault_enumeration");
-    let wanted = ctx.tier.pick(480usize, 2000usize);
+    let wanted = ctx.tier.pick(480usize, 6000usize);
     let max_drop_points = 8usize;
     ev.rule = format!("base histories from the C11 generator (20-120 requests, 1-4 sessions, 1-2 followers joining at position 0, early or anywhere, a quiescent point about every 5-25 requests); for each base history the leader is dropped at every quiescent point that follows the first join (at most {max_drop_points} per history, evenly sampled if there are more): the history is replayed on fresh servers up to that point, the leader's runtime is shut down abruptly, every follower must end by itself, and a new leader instance is started on each follower's data directory and read back (pget # minus $SYS, cget per key). Expected = the leader's user keys at the drop with the grave goods, then the last wills of all clients connected at the drop applied. Configs come from Config::new(Some(role flags)); every {}th scenario adds nothing to that (roles must imply persistence), the others switch use_persistence on explicitly as run-follower.sh does. A scenario is non-trivial if the leader held at least one user key and at least one registration of a connected client at the drop and a promoted instance was read; distinct = distinct (step list, drop point).", if ctx.findings.open(F_ROLE_PERSISTENCE, "C12") { 4 } else { 2 });
     let perturb_seed = c11::enable_perturbation(ctx);
